@@ -88,7 +88,7 @@ theorem arcInner_off_of_layout_eq {p p' : Layout} {e e' : Nat} (hp : p.AlignIs e
 
 theorem valueLayout_alignIs (t : Ty) (n : Nat) : ∃ e, (t.valueLayout n).AlignIs e := by
   cases t
-  case sizedB => exact ⟨3, rfl⟩
+  case sizedB => exact ⟨4, rfl⟩
   case hwl => exact ⟨3, rfl⟩
   all_goals exact ⟨2, rfl⟩
 
@@ -168,8 +168,9 @@ theorem stable_under_step (s : State) (op : Op) (i j : Nat) (h h' : HV) (hi : In
     asArc_off (ho'.toAll (j, h') (lookup_mem h2)), Nat.zero_add]
   exact dataOff_of_release_eq (l2.trans (hkl.trans l1.symm))
 
-/-- in M1 (no over-aligned payload types) the field offset of `data` is 8 for every view -/
-theorem dataOff_eq_8 (t : Ty) (n : Nat) : t.dataOff n = 8 := by
+/-- in M1 the field offset of `data` is 8 for every view except the over-aligned `TrackedB`
+(align 16), where it is 16 (sanity fact; the theorems above do not use it) -/
+theorem dataOff_values (t : Ty) (n : Nat) : t.dataOff n = if t = .sizedB then 16 else 8 := by
   cases t <;>
     simp [Ty.dataOff, arcInnerLayout, reprC2, wordLayout, Ty.valueLayout, Ty.elemLay, Ty.hdrLay, sliceLayout,
       headerSliceLayout, headerWithLengthLayout, trackedLay, trackedBLay, unitLayout, bits, roundUp]
